@@ -87,9 +87,9 @@ def _build_commands(tests, writer, local_env, collapse=False):
             out = writer(StringIO())
             out.write_shell(subcmd)
             s = out.stream.getvalue()
-            if len(subcmd) > 1:
-                s = out.quote(s)
-            return safe_str.literal(s)
+            # The child's whole command line is one argument of the driver,
+            # also when it was given as a single string with several words.
+            return safe_str.literal(out.quote(s))
         return subcmd
 
     cmd, deps = [], []
